@@ -72,12 +72,18 @@ class SingleUseExpansion(IRPass):
         for idx, (label, var) in enumerate(inst.phi_operands):
             assert isinstance(var, IRVariable)
 
-            # problematic case is only when two phis
-            # are getting same variable at the start of the
-            # same basic block otherwise this is not needed
+            # the phi must be the only use of its operand: the operand is
+            # consumed (renamed in place) by the phi in venom_to_assembly.py.
+            # this is violated when two phis at the start of the same
+            # basic block take the same variable, but also when the
+            # variable is used anywhere else, since it can then be live
+            # *through* the phi's block (e.g. a value defined before a loop
+            # which is both the initial value of a loop-carried phi and
+            # used in the loop body): the stack layouts expected on the
+            # different incoming edges would not agree.
             uses = self.dfg.get_uses_in_bb(var, inst.parent)
             uses = [use for use in uses if use.opcode != "assign"]
-            if len(uses) == 1:
+            if len(uses) == 1 and len(self.dfg.get_uses(var)) == 1:
                 continue
 
             source = self.function.get_basic_block(label.name)
